@@ -86,6 +86,13 @@ func newDriver(tier string) *driver {
 		panic(err)
 	}
 	d.toks = append(d.toks, token{"coin", pair.GetERC20Contract(), "atest", "coin"})
+	// ... and one for the native coin itself, which is also the staking bond denomination
+	bondPair, err := w.App.Erc20Keeper.RegisterCoin(ctx, banktypes.Metadata{Description: "n", Base: world.Denom, Display: "islm", Name: "islm", Symbol: "ISLM",
+		DenomUnits: []*banktypes.DenomUnit{{Denom: world.Denom, Exponent: 0}, {Denom: "islm", Exponent: 18}}})
+	if err != nil {
+		panic(err)
+	}
+	d.toks = append(d.toks, token{"bondcoin", bondPair.GetERC20Contract(), world.Denom, "coin"})
 	// ERC20-origin pairs deployed by account 1
 	deploy := func(name string, bin []byte, ctor abi.ABI, args ...interface{}) common.Address {
 		data, err := ctor.Pack("", args...)
@@ -279,6 +286,25 @@ func (d *driver) ops(w *world.World, depth int, path []string) []engine.Op {
 				return "ok"
 			})
 		}
+		// an approval for the module address moves nothing and converts nothing
+		add(fmt.Sprintf("approveModule(%s,half)", t.name), func(p []string, res *engine.Result) string {
+			a := d.view(t, S, R)
+			amt := pick("half", a.tokS)
+			if !amt.IsPositive() {
+				return "skip"
+			}
+			ok := d.call(S, t.addr, "approve", d.modHex, amt.BigInt())
+			b := d.view(t, S, R)
+			res.Evaluations++
+			if !b.coinS.Equal(a.coinS) || !b.tokS.Equal(a.tokS) || !b.modTok.Equal(a.modTok) || !b.totTok.Equal(a.totTok) {
+				d.viol(res, t, "hook", "approve-converted", "an approval for the module address changed coin or token balances", p,
+					map[string]any{"tx_ok": ok, "coin_credit": b.coinS.Sub(a.coinS).String(), "token_debit": a.tokS.Sub(b.tokS).String()})
+			}
+			if !ok {
+				return "rejected"
+			}
+			return "ok"
+		})
 		for _, cls := range []string{"1", "half", "all"} {
 			cls := cls
 			// token -> coin by an ERC20 transfer to the module address inside an Ethereum tx (hook path)
